@@ -528,6 +528,68 @@ m("benign-total-len-via-iter", "C09", "nomt/src/rollback/mod.rs",
   "    fn total_len(&self) -> usize {\n        self.log.iter().count()",
   None)
 
+# ---- C11 S2 merge frontier (elided subtree reconstruction under an overlay chain) ----
+m("c11-merge-tail-dropped", "C11", "nomt/src/merkle/seek.rs",
+  "            final_leaf_data_collection.extend_from_slice(&collected_leaf_data[beatree_leaf_idx..]);",
+  "            let _ = beatree_leaf_idx;",
+  "C11|S2|merkle::seek::SeekRequest::continue_leaves_fetch|every-stored-leaf-handled")
+m("c11-merge-supersede-unconditional", "C11", "nomt/src/merkle/seek.rs",
+  "                if key_path == Some(&overlay_key) {\n                    // The leaf data has been updated in the overlay.\n                    beatree_leaf_idx += 1;\n                }",
+  "                let _ = key_path;\n                beatree_leaf_idx += 1;",
+  "C11|S2|merkle::seek::SeekRequest::continue_leaves_fetch|every-stored-leaf-handled")
+m("c11-merge-copy-after-match", "C11", "nomt/src/merkle/seek.rs",
+  "                final_leaf_data_collection\n                    .extend_from_slice(&collected_leaf_data[start_idx..beatree_leaf_idx]);\n                let key_path = collected_leaf_data",
+  "                let key_path = collected_leaf_data",
+  "C11|S2|merkle::seek::SeekRequest::continue_leaves_fetch|every-stored-leaf-handled",
+  also=[("nomt/src/merkle/seek.rs",
+         "                if key_path == Some(&overlay_key) {\n                    // The leaf data has been updated in the overlay.",
+         "                final_leaf_data_collection\n                    .extend_from_slice(&collected_leaf_data[start_idx..beatree_leaf_idx]);\n                if key_path == Some(&overlay_key) {\n                    // The leaf data has been updated in the overlay.")])
+m("c11-merge-copy-starts-at-cursor", "C11", "nomt/src/merkle/seek.rs",
+  "                    .extend_from_slice(&collected_leaf_data[start_idx..beatree_leaf_idx]);",
+  "                    .extend_from_slice(&collected_leaf_data[beatree_leaf_idx.min(start_idx + 1)..beatree_leaf_idx]);",
+  "C11|S2|merkle::seek::SeekRequest::continue_leaves_fetch|every-stored-leaf-handled")
+m("benign-merge-copied-upto-variable", "C11", "nomt/src/merkle/seek.rs",
+  "            for (overlay_key, overlay_valuechange) in overlay.value_iter(range.0, range.1) {\n                let start_idx = beatree_leaf_idx;\n",
+  "            let mut start_idx = 0;\n            for (overlay_key, overlay_valuechange) in overlay.value_iter(range.0, range.1) {\n",
+  None,
+  also=[("nomt/src/merkle/seek.rs",
+         "                    ValueChange::Delete if key_path == Some(&overlay_key) => {\n                        beatree_leaf_idx += 1;\n                        continue;\n                    }",
+         "                    ValueChange::Delete if key_path == Some(&overlay_key) => {\n                        beatree_leaf_idx += 1;\n                        start_idx = beatree_leaf_idx;\n                        continue;\n                    }"),
+        ("nomt/src/merkle/seek.rs",
+         "                    ValueChange::Delete => continue,\n                };",
+         "                    ValueChange::Delete => {\n                        start_idx = beatree_leaf_idx;\n                        continue;\n                    }\n                };"),
+        ("nomt/src/merkle/seek.rs",
+         "                final_leaf_data_collection.push((overlay_key, value_hash));\n            }",
+         "                start_idx = beatree_leaf_idx;\n                final_leaf_data_collection.push((overlay_key, value_hash));\n            }")])
+m("benign-merge-naked-delete-keeps-start", "C11", "nomt/src/merkle/seek.rs",
+  "            for (overlay_key, overlay_valuechange) in overlay.value_iter(range.0, range.1) {\n                let start_idx = beatree_leaf_idx;\n",
+  "            let mut start_idx = 0;\n            for (overlay_key, overlay_valuechange) in overlay.value_iter(range.0, range.1) {\n",
+  None,
+  also=[("nomt/src/merkle/seek.rs",
+         "                final_leaf_data_collection\n                    .extend_from_slice(&collected_leaf_data[start_idx..beatree_leaf_idx]);\n                let key_path = collected_leaf_data",
+         "                let key_path = collected_leaf_data"),
+        ("nomt/src/merkle/seek.rs",
+         "                    ValueChange::Delete if key_path == Some(&overlay_key) => {\n                        beatree_leaf_idx += 1;\n                        continue;\n                    }",
+         "                    ValueChange::Delete if key_path == Some(&overlay_key) => {\n                        final_leaf_data_collection\n                            .extend_from_slice(&collected_leaf_data[start_idx..beatree_leaf_idx]);\n                        beatree_leaf_idx += 1;\n                        start_idx = beatree_leaf_idx;\n                        continue;\n                    }"),
+        ("nomt/src/merkle/seek.rs",
+         "                if key_path == Some(&overlay_key) {\n                    // The leaf data has been updated in the overlay.\n                    beatree_leaf_idx += 1;\n                }",
+         "                final_leaf_data_collection\n                    .extend_from_slice(&collected_leaf_data[start_idx..beatree_leaf_idx]);\n                if key_path == Some(&overlay_key) {\n                    // The leaf data has been updated in the overlay.\n                    beatree_leaf_idx += 1;\n                }\n                start_idx = beatree_leaf_idx;"),
+        ("nomt/src/merkle/seek.rs",
+         "            final_leaf_data_collection.extend_from_slice(&collected_leaf_data[beatree_leaf_idx..]);",
+         "            final_leaf_data_collection.extend_from_slice(&collected_leaf_data[start_idx..]);")])
+m("c11-merge-naked-delete-keeps-start-tail-from-cursor", "C11", "nomt/src/merkle/seek.rs",
+  "            for (overlay_key, overlay_valuechange) in overlay.value_iter(range.0, range.1) {\n                let start_idx = beatree_leaf_idx;\n",
+  "            let mut start_idx = 0;\n            for (overlay_key, overlay_valuechange) in overlay.value_iter(range.0, range.1) {\n",
+  "C11|S2|merkle::seek::SeekRequest::continue_leaves_fetch|every-stored-leaf-handled",
+  also=[("nomt/src/merkle/seek.rs",
+         "                final_leaf_data_collection\n                    .extend_from_slice(&collected_leaf_data[start_idx..beatree_leaf_idx]);\n                let key_path = collected_leaf_data",
+         "                let key_path = collected_leaf_data"),
+        ("nomt/src/merkle/seek.rs",
+         "                    ValueChange::Delete if key_path == Some(&overlay_key) => {\n                        beatree_leaf_idx += 1;\n                        continue;\n                    }",
+         "                    ValueChange::Delete if key_path == Some(&overlay_key) => {\n                        final_leaf_data_collection\n                            .extend_from_slice(&collected_leaf_data[start_idx..beatree_leaf_idx]);\n                        beatree_leaf_idx += 1;\n                        start_idx = beatree_leaf_idx;\n                        continue;\n                    }"),
+        ("nomt/src/merkle/seek.rs",
+         "                if key_path == Some(&overlay_key) {\n                    // The leaf data has been updated in the overlay.\n                    beatree_leaf_idx += 1;\n                }",
+         "                final_leaf_data_collection\n                    .extend_from_slice(&collected_leaf_data[start_idx..beatree_leaf_idx]);\n                if key_path == Some(&overlay_key) {\n                    // The leaf data has been updated in the overlay.\n                    beatree_leaf_idx += 1;\n                }\n                start_idx = beatree_leaf_idx;")])
 # ---- C11 P1/P2 overlay status domain ----
 m("c11-complete-when-not-live", "C11", "nomt/src/overlay.rs",
   "            .map_or(false, |status| !status.is_committed())",
@@ -610,6 +672,30 @@ m("benign-delta-applied-with-match", "C19", "nomt/src/bitbox/mod.rs",
 m("benign-freed-pages-via-local", "C19", "nomt/src/beatree/ops/update/mod.rs",
   "        leaf_finisher.finish(&page_pool, leaf_stage_outputs.freed_pages)?;",
   "        {\n            let leaf_freed = leaf_stage_outputs.freed_pages;\n            leaf_finisher.finish(&page_pool, leaf_freed)?\n        };",
+  None)
+m("c19-f12-early-return-skips-overflow", "C19", "nomt/src/beatree/ops/update/leaf_updater.rs",
+  "        if from != to {\n            let values_size = base.node.values_size(from, to);\n            self.ops.push(LeafOp::KeepChunk(from, to, values_size));\n            self.gauge.ingest(to - from, values_size);\n        }\n",
+  "        if from == to {\n            return;\n        }\n        let values_size = base.node.values_size(from, to);\n        self.ops.push(LeafOp::KeepChunk(from, to, values_size));\n        self.gauge.ingest(to - from, values_size);\n",
+  "U4|beatree::ops::update::leaf_updater::LeafUpdater::keep_up_to|found-examined-on-every-path")
+m("c19-overflow-only-when-chunk-kept", "C19", "nomt/src/beatree/ops/update/leaf_updater.rs",
+  "        if found {\n            let (val, overflow) = base.cell(to);",
+  "        if found && from != to {\n            let (val, overflow) = base.cell(to);",
+  "U4|beatree::ops::update::leaf_updater::LeafUpdater::keep_up_to|found-cell-examined")
+m("c19-ingest-swallows-callback", "C19", "nomt/src/beatree/ops/update/leaf_updater.rs",
+  "        self.keep_up_to(Some(&key), with_deleted_overflow);",
+  "        let _ = with_deleted_overflow;\n        self.keep_up_to(Some(&key), |_| {});",
+  "U4|beatree::ops::update::leaf_updater::LeafUpdater::ingest|passes-callback")
+m("c19-stage-callback-drops-cell", "C19", "nomt/src/beatree/ops/update/leaf_stage.rs",
+  "        let delete_overflow = |overflow_cell: &[u8]| overflow_deleted.push(overflow_cell.to_vec());",
+  "        let delete_overflow = |overflow_cell: &[u8]| {\n            let _ = (overflow_cell, &mut overflow_deleted);\n        };",
+  "U4|beatree::ops::update::leaf_stage::run_worker|callback-stores-cell")
+m("c19-overflow-deleted-not-drained", "C19", "nomt/src/beatree/ops/update/leaf_stage.rs",
+  "    for deleted_overflow_cell in worker_output.overflow_deleted.drain(..) {\n        overflow::delete(&deleted_overflow_cell, leaf_reader, &mut output.freed_pages);\n    }",
+  "    worker_output.overflow_deleted.clear();\n    let _ = leaf_reader;",
+  "U4|beatree::ops::overflow::delete|drains-overflow_deleted")
+m("benign-keep-up-to-found-and-overflow", "C19", "nomt/src/beatree/ops/update/leaf_updater.rs",
+  "        if found {\n            let (val, overflow) = base.cell(to);\n            if overflow {\n                with_deleted_overflow(val);\n            }\n        }",
+  "        if !found {\n            return;\n        }\n        match base.cell(to) {\n            (val, true) => with_deleted_overflow(val),\n            _ => {}\n        }",
   None)
 m("c19-allocate-ignores-free-list", "C19", "nomt/src/beatree/allocator/mod.rs",
   "        if allocation_index >= free_list.len() {\n            let pn = PageNumber(sync.bump.0 + (allocation_index - free_list.len()) as u32);",
